@@ -641,7 +641,10 @@ def worker(prog):
 
     warnings.filterwarnings("ignore")
     if prog["jit"] and numba_tag() == "numba":
-        _warm_up_numba()
+        try:
+            _warm_up_numba()
+        except Exception:         # a tree whose warm-up expression does not compile: the programs themselves are judged
+            _WARM.append(False)
     obs, errs = [], []
     COMPLEX_TYPED[0] = 0
     try:
